@@ -28,6 +28,9 @@ pub struct Walk {
     pub free_len: usize,
     pub arena_len: usize,
     pub valued: usize,
+    /// raw free list and cached counter (only used to keep tainted states apart)
+    pub free: Vec<usize>,
+    pub count: usize,
 }
 
 fn la(x: u128, width: u8) -> u128 {
@@ -47,6 +50,8 @@ pub fn walk(d: &ArenaDump, width: u8) -> (Walk, Vec<Viol>, bool) {
         free_len: d.free.len(),
         arena_len: d.arena_len,
         valued: 0,
+        free: d.free.clone(),
+        count: d.count,
     };
     let mut fatal = false;
     if d.arena_len == 0 || d.slots.len() != d.arena_len {
@@ -123,7 +128,6 @@ pub fn walk(d: &ArenaDump, width: u8) -> (Walk, Vec<Viol>, bool) {
     for &f in &d.free {
         if f >= n {
             out.push(Viol::new("C16", "free-list", "free-slot-out-of-range", format!("free slot {f} >= arena_len {n}")));
-            fatal = true;
             continue;
         }
         if f == 0 {
@@ -135,7 +139,6 @@ pub fn walk(d: &ArenaDump, width: u8) -> (Walk, Vec<Viol>, bool) {
         in_free[f] = true;
         if seen[f] {
             out.push(Viol::new("C16", "free-list", "slot-in-tree-and-free", format!("slot {f} is reachable and on the free list")));
-            fatal = true;
         }
     }
     for s in 0..n {
@@ -156,6 +159,8 @@ pub struct KeyOpts {
     pub reps: bool,
     /// include the exact slot layout and free-list order (abstraction validation run)
     pub layout: bool,
+    /// drop the free-list class (pair engines: set operations never look at the free list)
+    pub no_free: bool,
 }
 
 /// canonical state key
@@ -204,7 +209,7 @@ pub fn state_key(w: &Walk, d: &ArenaDump, uni: &Universe, opts: KeyOpts) -> Box<
             k.push(*f as u8);
         }
     } else {
-        k.push(w.free_len.min(2) as u8);
+        k.push(if opts.no_free { 0 } else { w.free_len.min(2) as u8 });
     }
     k.into_boxed_slice()
 }
